@@ -260,22 +260,24 @@ Record sc := mkSc {
   sfull : bool;            (* multiply: _full *)
   slogfirst : string;      (* LOG_INTERPOLATE decision tables, one char '0' '1' 'E' per position of new_vals *)
   slogfwd : string;
-  slogrev : string
+  slogrev : string;
+  slogdesc : bool;         (* LOG_INTERPOLATE: the numeric part of _describes_its_values for the nodes it ends up with *)
+  smulok : bool            (* MULTIPLY: the multiplier text that is printed reproduces the second value (rel_tol / 2) *)
 }.
 
 Definition set_nodes (s : sc) (ns : list leaf) : sc :=
   mkSc (sid s) (skind s) ns (sshare s) (sorig s) (sotok s) (snumtok s) (snumog s) (sendpad s) (smidpad s)
-       (sbegin s) (send s) (sspacing s) (sfull s) (slogfirst s) (slogfwd s) (slogrev s).
+       (sbegin s) (send s) (sspacing s) (sfull s) (slogfirst s) (slogfwd s) (slogrev s) (slogdesc s) (smulok s).
 Definition set_share (s : sc) (b : bool) : sc :=
   mkSc (sid s) (skind s) (snodes s) b (sorig s) (sotok s) (snumtok s) (snumog s) (sendpad s) (smidpad s)
-       (sbegin s) (send s) (sspacing s) (sfull s) (slogfirst s) (slogfwd s) (slogrev s).
+       (sbegin s) (send s) (sspacing s) (sfull s) (slogfirst s) (slogfwd s) (slogrev s) (slogdesc s) (smulok s).
 Definition set_full (s : sc) (b : bool) : sc :=
   mkSc (sid s) (skind s) (snodes s) (sshare s) (sorig s) (sotok s) (snumtok s) (snumog s) (sendpad s) (smidpad s)
-       (sbegin s) (send s) (sspacing s) b (slogfirst s) (slogfwd s) (slogrev s).
+       (sbegin s) (send s) (sspacing s) b (slogfirst s) (slogfwd s) (slogrev s) (slogdesc s) (smulok s).
 
 (* ShortcutNode(p=None, short_type=Shortcuts.JUMP) *)
 Definition fresh_jump (id : Z) : sc :=
-  mkSc id KJ [] false 0 "" None None " " " " 0 0 0 false "" "" "".
+  mkSc id KJ [] false 0 "" None None " " " " 0 0 0 false "" "" "" true true.
 
 Inductive err := EIndex | EZeroDiv | EType | EMath | EBadReq.
 Inductive res (A : Type) := Ok (a : A) | Err (e : err).
@@ -300,6 +302,7 @@ Definition can_consume (s : sc) (pos : nat) (node : leaf) (fwd : bool) (last_edg
   | KR =>
       match snodes s, lval node with
       | [], Some _ => Ok (true, s)
+      | [], None => Ok (false, s)
       | _, _ =>
           match (if fwd then last_leaf (snodes s) else first_leaf (snodes s)) with
           | None => Err EIndex                          (* self.nodes[-1] on an empty deque *)
@@ -340,7 +343,7 @@ Definition can_consume (s : sc) (pos : nat) (node : leaf) (fwd : bool) (last_edg
       | Some _ =>
           match snodes s with
           | [] => Ok (true, set_full s last_edge)
-          | [_] => Ok (negb (sfull s), s)
+          | [f] => Ok (negb (sfull s) && negb (match lval f with Some q => qzero q | None => false end), s)
           | _ => Ok (false, s)
           end
       end
@@ -470,7 +473,10 @@ Definition zstep (st : zstate) (ev : entry * leaf) : res zstate :=
               | Ok (s'', done') => Ok (mkZ ((ESc id, v) :: done') (put_sc s'' (zstore st)) (Some id) le (zfresh st))
               end
           | Ok (false, s') =>
-              Ok (mkZ ((EVal, v) :: zdone st) (put_sc s' (zstore st)) None le (zfresh st))
+              match zorphan i v EVal (mkZ (zdone st) (put_sc s' (zstore st)) None le (zfresh st)) with
+              | Err er => Err er
+              | Ok (e', st') => Ok (zpush e' v st')
+              end
           end
       end
   | EVal =>
@@ -511,12 +517,16 @@ Fixpoint zloop (todo : list (entry * leaf)) (st : zstate) : res zstate :=
 Inductive lnode := NVal (l : leaf) | NSc (s : sc).
 Record listnode := mkList { lnodes : list lnode; lshorts : list sc }.
 
+(* a value that ends up as a plain entry of the list can be padded again: never_pad is cleared when it has no padding *)
+Definition unpin (l : leaf) : leaf :=
+  if lpad l then l else mkLeaf (lid l) (lval l) (lty l) (lpad l) false (ltxt l) (ltxtsp l).
+
 (* the loop that rebuilds _nodes / _shortcuts from the cache; [lastsc] = id of _shortcuts[-1] *)
 Fixpoint collect (cache : list (entry * leaf)) (store : list sc) (lastsc : option Z)
   : list lnode * list sc :=
   match cache with
   | (EVal, v) :: cr =>
-      let (ns, ss) := collect cr store lastsc in (NVal v :: ns, ss)
+      let (ns, ss) := collect cr store lastsc in (NVal (unpin v) :: ns, ss)
   | (ESc id, _) :: cr =>
       let same := match lastsc with Some l => Z.eqb l id | None => false end in
       if same then collect cr store lastsc
@@ -557,6 +567,65 @@ Definition lnode_leaves (n : lnode) : list leaf :=
 (* ListNode.__iter__ *)
 Definition flatten (ns : list lnode) : list leaf := flat_map lnode_leaves ns.
 
+(* ------------------------------------------------------------------ what a list means: closeness of expansions *)
+Definition leaf_val (l : leaf) : val := match lval l with Some q => VQ q | None => VJ end.
+
+(* pointwise closeness of a re-read list to the intended values *)
+Definition vclose (a b : val) : bool :=
+  match a, b with
+  | VQ x, VQ y => qclose x y
+  | VJ, VJ => true
+  | VLog _ _ _ _, VQ _ => true      (* a logarithmic interpolant stays symbolic: its position is checked, its
+                                       number (log / pow in binary64) only by the harness on the real text *)
+  | _, _ => false
+  end.
+Fixpoint vlist_close (a b : list val) : bool :=
+  match a, b with
+  | [], [] => true
+  | x :: r, y :: s => vclose x y && vlist_close r s
+  | _, _ => false
+  end.
+(* trailing jumps may be left off *)
+Fixpoint strip_trailing_jumps (l : list val) : list val :=
+  match l with
+  | [] => []
+  | x :: r => match x, strip_trailing_jumps r with
+              | VJ, [] => []
+              | _, r' => x :: r'
+              end
+  end.
+
+(* what "v nR", "v nI w", "v nILOG w", "nJ" over these nodes mean (the manual's definition) *)
+Definition expect_jump (ns : list leaf) : option (list val) := Some (repeat VJ (List.length ns)).
+Definition expect_repeat (ns : list leaf) : option (list val) :=
+  match ns with
+  | f :: r => match lval f with
+              | Some q => Some (VQ q :: repeat (VQ q) (List.length r))
+              | None => None
+              end
+  | [] => None
+  end.
+Definition expect_interp (k : kind) (ns : list leaf) : option (list val) :=
+  match ns, last_leaf ns with
+  | f :: _ :: _, Some e =>
+      match lval f, lval e with
+      | Some a, Some b =>
+          let c := (List.length ns - 2)%nat in
+          match k with
+          | KL => if qpos a && qpos b then Some ([VQ a] +++ log_steps a b c 1 c +++ [VQ b]) else None
+          | _ => Some ([VQ a] +++ lin_steps a b c 1 c +++ [VQ b])
+          end
+      | _, _ => None
+      end
+  | _, _ => None
+  end.
+(* does the printed shortcut mean the values of its nodes? *)
+Definition sem_ok (e : option (list val)) (ns : list leaf) : bool :=
+  match e with
+  | Some l => vlist_close l (map leaf_val ns)
+  | None => false
+  end.
+
 (* ------------------------------------------------------------------ Part 3: formatting *)
 Inductive piece :=
 | PcLeaf (v : option Q) (txt : string)        (* a value leaf with the text ValueNode.format gave *)
@@ -585,6 +654,35 @@ Fixpoint lstrip0 (s : string) : string :=
 Fixpoint nchars (c : ascii) (n : nat) : string :=
   match n with O => EmptyString | S k => String c (nchars c k) end.
 
+Definition is_ws (a : ascii) : bool :=
+  let n := nat_of_ascii a in Nat.eqb n 32 || Nat.eqb n 10 || Nat.eqb n 9 || Nat.eqb n 13.
+(* text[-1].isspace() *)
+Fixpoint ends_ws (s : string) : bool :=
+  match s with
+  | EmptyString => false
+  | String a EmptyString => is_ws a
+  | String _ r => ends_ws r
+  end.
+(* str.strip() *)
+Fixpoint lstrip_ws (s : string) : string :=
+  match s with
+  | String a r => if is_ws a then lstrip_ws r else s
+  | EmptyString => EmptyString
+  end.
+Fixpoint rstrip_by (f : ascii -> bool) (s : string) : string :=
+  match s with
+  | EmptyString => EmptyString
+  | String a r => match rstrip_by f r with
+                  | EmptyString => if f a then EmptyString else String a EmptyString
+                  | r' => String a r'
+                  end
+  end.
+Definition strip_ws (s : string) : string := rstrip_by is_ws (lstrip_ws s).
+Definition is_space (a : ascii) : bool := Nat.eqb (nat_of_ascii a) 32.
+(* ShortcutNode._format_first_value: the text followed by at least one blank *)
+Definition ensure_blank (t : string) : string :=
+  if String.eqb t "" then "" else if ends_ws t then t else t ++ " ".
+
 (* "{v:0=-{zp}d}" *)
 Definition fmt_int (zp : nat) (v : Z) : string :=
   let d := show_Z (Z.abs v) in
@@ -611,12 +709,111 @@ Definition fmt_count (numtok : option string) (og : option Z) (v : Z) : string :
   | None => show_Z v
   end.
 
-Definition count_piece (s : sc) (n : Z) : piece := PcCnt n (fmt_count (snumtok s) (snumog s) n).
+(* "{count.format().strip()}" *)
+Definition count_piece (s : sc) (n : Z) : piece := PcCnt n (strip_ws (fmt_count (snumtok s) (snumog s) n)).
 Definition leaf_piece (l : leaf) : piece := PcLeaf (lval l) (ltxt l).
+Definition first_piece (l : leaf) : piece := PcLeaf (lval l) (ensure_blank (ltxt l)).
 Definition pad_pieces (t : string) : list piece :=
   if String.eqb t "" then [] else [PcPad t].
 
 Definition zlen {A} (l : list A) : Z := Z.of_nat (List.length l).
+
+Definition mul_placeholder (s a b : Z) : string :=
+  "{M:" ++ show_Z s ++ ":" ++ show_Z a ++ ":" ++ show_Z b ++ "}".
+Definition piece_text (p : piece) : string :=
+  match p with
+  | PcLeaf _ t => t
+  | PcCnt _ t => t
+  | PcMul _ s a b => mul_placeholder s a b
+  | PcLet _ t => t
+  | PcPad t => t
+  end.
+Definition render (ps : list piece) : string := String.concat "" (map piece_text ps).
+
+(* ShortcutNode._describes_its_values *)
+Definition with_leading (s : sc) (leading : option sc) : list leaf :=
+  match leading with
+  | Some p => match last_leaf (snodes p) with Some x => x :: snodes s | None => snodes s end
+  | None => snodes s
+  end.
+Definition describes (s : sc) (leading : option sc) : bool :=
+  let nodes := with_leading s leading in
+  let n := List.length nodes in
+  match skind s with
+  | KJ => true
+  | KM =>
+      if negb (Nat.eqb n 2) then false
+      else if negb (forallb (fun l => match lval l with Some _ => true | None => false end) nodes) then true
+      else match first_leaf nodes, last_leaf nodes with
+           | Some f, Some l =>
+               match lval f, lval l with
+               | Some a, Some b => negb (qzero a) || qzero b
+               | _, _ => true
+               end
+           | _, _ => true
+           end
+  | KR =>
+      if Nat.ltb n 2 then false
+      else if negb (forallb (fun l => match lval l with Some _ => true | None => false end) nodes) then true
+      else sem_ok (expect_repeat nodes) nodes
+  | KI =>
+      if Nat.ltb n 3 then false
+      else if negb (forallb (fun l => match lval l with Some _ => true | None => false end) nodes) then true
+      else sem_ok (expect_interp KI nodes) nodes
+  | KL =>
+      if Nat.ltb n 3 then false
+      else if negb (forallb (fun l => match lval l with Some _ => true | None => false end) nodes) then true
+      else match first_leaf nodes, last_leaf nodes with
+           | Some f, Some l =>
+               match lval f, lval l with
+               | Some a, Some b => if qpos a && qpos b then slogdesc s else false
+               | _, _ => true
+               end
+           | _, _ => true
+           end
+  end.
+
+(* ShortcutNode._format_expanded: every value on its own; a blank is put between two texts that would fuse.
+   [acc] = the text written so far *)
+Fixpoint expand_pieces (ns : list (leaf * bool)) (acc : string) : list piece :=
+  match ns with
+  | [] => []
+  | (l, virtual) :: r =>
+      let t := if virtual then ltxtsp l else ltxt l in
+      let sep := if negb (String.eqb acc "") && negb (ends_ws acc) then [PcPad " "] else [] in
+      let acc' := (acc ++ (if negb (String.eqb acc "") && negb (ends_ws acc) then " " else "") ++ t)%string in
+      sep +++ PcLeaf (lval l) t :: expand_pieces r acc'
+  end.
+(* ret.rstrip(" ") over the pieces *)
+Fixpoint rstrip_pieces_rev (ps : list piece) : list piece :=     (* [ps] last piece first *)
+  match ps with
+  | [] => []
+  | p :: r =>
+      match rstrip_by is_space (piece_text p) with
+      | EmptyString => rstrip_pieces_rev r
+      | t => (match p with
+              | PcLeaf v _ => PcLeaf v t
+              | PcCnt n _ => PcCnt n t
+              | PcLet k _ => PcLet k t
+              | PcPad _ => PcPad t
+              | PcMul _ _ _ _ => p
+              end) :: r
+      end
+  end.
+Definition rstrip_pieces (ps : list piece) : list piece := rev (rstrip_pieces_rev (rev ps)).
+
+Fixpoint mark_virtual (ns : list leaf) (i first : nat) (keep_last : bool) : list (leaf * bool) :=
+  match ns with
+  | [] => []
+  | l :: r =>
+      let is_last := match r with [] => true | _ => false end in
+      (l, Nat.leb first i && negb (keep_last && is_last)) :: mark_virtual r (S i) first keep_last
+  end.
+Definition format_expanded (s : sc) (has_leading : bool) : list piece :=
+  let first := if has_leading then 0%nat else 1%nat in
+  let keep_last := match skind s with KR => false | _ => true end in      (* nodes[first:] / nodes[first:-1] *)
+  let ps := expand_pieces (mark_virtual (snodes s) 0 first keep_last) "" in
+  if String.eqb (sendpad s) "" then ps else rstrip_pieces ps.
 
 (* ShortcutNode._format_jump *)
 Definition format_jump (s : sc) : list piece :=
@@ -632,7 +829,7 @@ Definition format_jump (s : sc) : list piece :=
 Definition format_repeat (s : sc) (leading : bool) : res (list piece) :=
   match (if leading then Ok ([], 0%Z) else
            match first_leaf (snodes s) with
-           | Some l => Ok ([leaf_piece l], 1%Z)
+           | Some l => Ok ([first_piece l], 1%Z)
            | None => Err EIndex
            end) with
   | Err e => Err e
@@ -644,13 +841,14 @@ Definition format_repeat (s : sc) (leading : bool) : res (list piece) :=
       else Ok (first +++ [count_piece s n; PcLet KR r])
   end.
 
-(* ShortcutNode._format_multiply; [lead] = last node of the leading shortcut *)
-Definition format_multiply (s : sc) (lead : option (option leaf)) : res (list piece) :=
+(* ShortcutNode._format_multiply; [lead] = last node of the leading shortcut.
+   -> None: the multiplier cannot be printed precisely enough ([smulok]): written expanded *)
+Definition format_multiply (s : sc) (lead : option (option leaf)) : res (option (list piece)) :=
   match (match lead with
          | Some (Some l) => Ok ([], l)
          | Some None => Err EIndex
          | None => match first_leaf (snodes s) with
-                   | Some l => Ok ([leaf_piece l], l)
+                   | Some l => Ok ([first_piece l], l)
                    | None => Err EIndex
                    end
          end) with
@@ -664,8 +862,8 @@ Definition format_multiply (s : sc) (lead : option (option leaf)) : res (list pi
       | Some lv =>
           match lval lv, lval fv with
           | Some a, Some b =>
-              if qzero b then Err EZeroDiv
-              else Ok (first +++ [PcMul (a / b) (sid s) (lid fv) (lid lv); PcLet KM m])
+              if negb (smulok s) then Ok None
+              else Ok (Some (first +++ [PcMul (if qzero b then 1 else a / b) (sid s) (lid fv) (lid lv); PcLet KM m]))
           | _, _ => Err EType
           end
       end
@@ -675,7 +873,7 @@ Definition format_multiply (s : sc) (lead : option (option leaf)) : res (list pi
 Definition format_interpolate (s : sc) (leading : bool) : res (list piece) :=
   match (if leading then Ok ([], 1%Z) else
            match first_leaf (snodes s) with
-           | Some l => Ok ([leaf_piece l], 2%Z)
+           | Some l => Ok ([first_piece l], 2%Z)
            | None => Err EIndex
            end) with
   | Err e => Err e
@@ -696,36 +894,51 @@ Definition format_interpolate (s : sc) (leading : bool) : res (list piece) :=
 
 (* ShortcutNode.format *)
 Definition format_sc (s : sc) (leading : option sc) : res (list piece) :=
+  let has_leading := match leading with Some _ => true | None => false end in
   let body :=
+    if negb (describes s leading) then Ok (format_expanded s has_leading)
+    else
     match skind s with
     | KJ => Ok (format_jump s)
-    | KR => format_repeat s (match leading with Some _ => true | None => false end)
-    | KM => format_multiply s (option_map (fun p => last_leaf (snodes p)) leading)
-    | KI | KL => format_interpolate s (match leading with Some _ => true | None => false end)
+    | KR => format_repeat s has_leading
+    | KM => match format_multiply s (option_map (fun p => last_leaf (snodes p)) leading) with
+            | Err e => Err e
+            | Ok (Some ps) => Ok ps
+            | Ok None => Ok (format_expanded s has_leading)
+            end
+    | KI | KL => format_interpolate s has_leading
     end in
   match body with
   | Err e => Err e
   | Ok ps => Ok (ps +++ pad_pieces (sendpad s))
   end.
 
-(* ListNode.format *)
+(* ListNode.format: what one node contributes *)
+Definition lead_of (n : lnode) (prev : option lnode) : option sc :=
+  match n, prev with
+  | NSc s, Some (NSc p) => if sshare s then Some p else None
+  | _, _ => None
+  end.
+(* a blank after a shortcut that is followed by another node *)
+Definition blank_after (is_last : bool) (ps : list piece) : list piece :=
+  let t := render ps in
+  if negb is_last && negb (String.eqb t "") && negb (ends_ws t) then ps +++ [PcPad " "] else ps.
+Definition node_out (n : lnode) (prev : option lnode) (is_last : bool) : res (list piece) :=
+  match n with
+  | NVal l =>
+      let autopad := negb (lpad l) && negb is_last && negb (lnever l) in
+      Ok [PcLeaf (lval l) (if autopad then ltxtsp l else ltxt l)]
+  | NSc s =>
+      match format_sc s (lead_of n prev) with
+      | Err e => Err e
+      | Ok ps => Ok (blank_after is_last ps)
+      end
+  end.
 Fixpoint format_nodes (nodes : list lnode) (prev : option lnode) : res (list piece) :=
   match nodes with
   | [] => Ok []
   | n :: r =>
-      let here :=
-        match n with
-        | NVal l =>
-            let autopad := negb (lpad l) && negb (match r with [] => true | _ => false end)
-                           && negb (lnever l) in
-            Ok [PcLeaf (lval l) (if autopad then ltxtsp l else ltxt l)]
-        | NSc s =>
-            match prev with
-            | Some (NSc p) => if sshare s then format_sc s (Some p) else format_sc s None
-            | _ => format_sc s None
-            end
-        end in
-      match here, format_nodes r (Some n) with
+      match node_out n prev (match r with [] => true | _ => false end), format_nodes r (Some n) with
       | Ok a, Ok b => Ok (a +++ b)
       | Err e, _ => Err e
       | _, Err e => Err e
@@ -733,21 +946,7 @@ Fixpoint format_nodes (nodes : list lnode) (prev : option lnode) : res (list pie
   end.
 Definition format_list (l : listnode) : res (list piece) := format_nodes (lnodes l) None.
 
-Definition mul_placeholder (s a b : Z) : string :=
-  "{M:" ++ show_Z s ++ ":" ++ show_Z a ++ ":" ++ show_Z b ++ "}".
-Definition piece_text (p : piece) : string :=
-  match p with
-  | PcLeaf _ t => t
-  | PcCnt _ t => t
-  | PcMul _ s a b => mul_placeholder s a b
-  | PcLet _ t => t
-  | PcPad t => t
-  end.
-Definition render (ps : list piece) : string := String.concat "" (map piece_text ps).
-
 (* --- reading the pieces back as MCNP tokenises the text --- *)
-Definition is_ws (a : ascii) : bool :=
-  let n := nat_of_ascii a in Nat.eqb n 32 || Nat.eqb n 10 || Nat.eqb n 9 || Nat.eqb n 13.
 Fixpoint all_ws (s : string) : bool :=
   match s with EmptyString => true | String a r => is_ws a && all_ws r end.
 (* the text up to the first blank, and what follows *)
@@ -806,33 +1005,6 @@ Definition piece_tokens (ps : list piece) : list tok := piece_tokens_aux ps [] [
 (* what the written list means *)
 Definition reexpand (ps : list piece) : option (list val) := spec_expand (piece_tokens ps).
 
-Definition leaf_val (l : leaf) : val := match lval l with Some q => VQ q | None => VJ end.
-
-(* pointwise closeness of a re-read list to the intended values *)
-Definition vclose (a b : val) : bool :=
-  match a, b with
-  | VQ x, VQ y => qclose x y
-  | VJ, VJ => true
-  | VLog _ _ _ _, VQ _ => true      (* a logarithmic interpolant stays symbolic: its position is checked, its
-                                       number (log / pow in binary64) only by the harness on the real text *)
-  | _, _ => false
-  end.
-Fixpoint vlist_close (a b : list val) : bool :=
-  match a, b with
-  | [], [] => true
-  | x :: r, y :: s => vclose x y && vlist_close r s
-  | _, _ => false
-  end.
-(* trailing jumps may be left off *)
-Fixpoint strip_trailing_jumps (l : list val) : list val :=
-  match l with
-  | [] => []
-  | x :: r => match x, strip_trailing_jumps r with
-              | VJ, [] => []
-              | _, r' => x :: r'
-              end
-  end.
-
 (* the C08 sentence for one update: the written list re-reads as the current values *)
 Definition recompress_ok (shorts : list sc) (vals : list leaf) (fresh0 : Z) : bool :=
   match update shorts vals fresh0 with
@@ -851,21 +1023,21 @@ Definition recompress_ok (shorts : list sc) (vals : list leaf) (fresh0 : Z) : bo
 (* ------------------------------------------------------------------ when is the formatted text sound?
    [format_ok] is the side condition of C08_recompress_partial; [node_diag] names which part fails
    (the harness attributes failures of the real code to known findings through these codes):
-     v  a free leaf prints nothing (a value node whose value became None)
-     x  text that is not a single blank-terminated word (comments, inner blanks)
-     f  a free leaf is printed without a blank after it and is not the last node (never_pad interpolants)
-     e  a shortcut without end padding is followed by another node
-     n  an interpolate holds fewer than two nodes (negative count)
-     w  the count text carries blanks (the count has fewer digits than the count token it replaces)
-     u  a leaf printed inside a shortcut (its first value) has no blank after it
-     m  a multiply does not hold exactly two nodes      z  its first value is zero (or a jump)
-     d  a repeat holds a value that is not isclose to its first value (repeat groups consume neighbour by
-        neighbour: isclose is not transitive), or starts with a jump
-     l  an interpolate holds a value that is not isclose to the interpolant between its first and last value
-        (same reason), an end that is a jump, or - nILOG - an end that is not positive
+     E  formatting the node raises
+     v  a leaf prints nothing (a value node whose value became None)
+     x  text that is not a single blank-terminated word (comments, inner blanks); padding that is not blank
+     f  a free leaf is printed without a blank after it and is not the last node (never_pad)
+     w  the count text is not a bare number
+     n  the count is negative      m  a multiply does not stand for exactly two values
+     z  a multiply starts from a jump
+     d  a repeat holds a value that is not isclose to its first value, or starts with a jump
+     l  an interpolate holds a value that is not isclose to the interpolant between its first and last value,
+        an end that is a jump, or - nILOG - an end that is not positive
      k  a jump shortcut holds a value
-   The codes d l k compare what the printed shortcut means ([expect_*], the manual's definition) with the values
-   of the nodes it stands for; the other codes are about how the text is cut into tokens. *)
+     p  a shortcut written as plain values: the values are not printed as blank-separated words
+     q  ... or are not the values of its nodes
+   The codes d l k q compare what the printed text means (the manual's definition) with the values of the nodes it
+   stands for; the other codes are about how the text is cut into tokens. *)
 Definition body_of (t : string) : string := fst (span_body t).
 Definition rest_of (t : string) : string := snd (span_body t).
 Definition word_ok (t : string) : bool := negb (String.eqb (body_of t) "") && all_ws (rest_of t).
@@ -884,53 +1056,42 @@ Definition free_leaf_diag (l : leaf) (is_last : bool) : string :=
 Definition inner_leaf_diag (l : leaf) : string :=
   let t := ltxt l in
   if String.eqb t "" then "v"
-  else if negb (word_ok t) then "x"
-  else code (negb (ends_blank t)) "u".
+  else code (negb (word_ok t)) "x".
 
 Definition count_diag (s : sc) (n : Z) (omitted : bool) : string :=
-  if omitted then "" else code (negb (cnt_txt_ok (fmt_count (snumtok s) (snumog s) n))) "w".
+  if omitted then "" else code (negb (cnt_txt_ok (strip_ws (fmt_count (snumtok s) (snumog s) n)))) "w".
 
-Definition endpad_diag (s : sc) (last_blank : bool) (is_last : bool) : string :=
-  code (negb (all_ws (sendpad s))) "x" ++
-  code (negb is_last && negb last_blank && negb (ends_blank (sendpad s))) "e".
+Definition endpad_diag (s : sc) : string := code (negb (all_ws (sendpad s))) "x".
 
-Definition expect_jump (ns : list leaf) : option (list val) := Some (repeat VJ (List.length ns)).
-Definition expect_repeat (ns : list leaf) : option (list val) :=
-  match ns with
-  | f :: r => match lval f with
-              | Some q => Some (VQ q :: repeat (VQ q) (List.length r))
-              | None => None
-              end
-  | [] => None
+(* a shortcut written as plain values *)
+Fixpoint plain_vals (ps : list piece) : list val :=
+  match ps with
+  | [] => []
+  | PcLeaf (Some q) _ :: r => VQ q :: plain_vals r
+  | PcLeaf None _ :: r => VJ :: plain_vals r
+  | _ :: r => plain_vals r
   end.
-Definition expect_interp (k : kind) (ns : list leaf) : option (list val) :=
-  match ns, last_leaf ns with
-  | f :: _ :: _, Some e =>
-      match lval f, lval e with
-      | Some a, Some b =>
-          let c := (List.length ns - 2)%nat in
-          match k with
-          | KL => if qpos a && qpos b then Some ([VQ a] +++ log_steps a b c 1 c +++ [VQ b]) else None
-          | _ => Some ([VQ a] +++ lin_steps a b c 1 c +++ [VQ b])
-          end
-      | _, _ => None
-      end
-  | _, _ => None
-  end.
-(* does the printed shortcut mean the values of its nodes? *)
-Definition sem_ok (e : option (list val)) (ns : list leaf) : bool :=
-  match e with
-  | Some l => vlist_close l (map leaf_val ns)
-  | None => false
+(* [pending]: the leaf printed last has no blank after it yet *)
+Fixpoint plain_ok (ps : list piece) (pending : bool) (is_last : bool) : bool :=
+  match ps with
+  | [] => negb pending || is_last
+  | PcLeaf _ t :: r => negb pending && word_ok t && plain_ok r (negb (ends_blank t)) is_last
+  | PcPad t :: r => all_ws t && negb (String.eqb t "") && plain_ok r false is_last
+  | _ :: _ => false
   end.
 
-Definition sc_diag (s : sc) (leading : bool) (is_last : bool) : string :=
+(* is the node written as plain values? *)
+Definition expanded_mode (s : sc) (lead : option sc) : bool :=
+  negb (describes s lead) || match skind s with KM => negb (smulok s) | _ => false end.
+
+(* a shortcut written as a shortcut *)
+Definition sc_diag (s : sc) (leading : bool) : string :=
   let n := zlen (snodes s) in
   match skind s with
   | KJ =>
       let omitted := (n =? 1)%Z && (Nat.eqb (sorig s) 0 || negb (has_char "1" (sotok s))) in
       code (n =? 0)%Z "n" ++ count_diag s n omitted ++
-      code (negb (sem_ok (expect_jump (snodes s)) (snodes s))) "k" ++ endpad_diag s false is_last
+      code (negb (sem_ok (expect_jump (snodes s)) (snodes s))) "k" ++ endpad_diag s
   | KR =>
       let extra := if leading then 0%Z else 1%Z in
       let c := (n - extra)%Z in
@@ -940,19 +1101,23 @@ Definition sc_diag (s : sc) (leading : bool) (is_last : bool) : string :=
                                | None => "n" end) ++
       code (c <? 0)%Z "n" ++ count_diag s c omitted ++
       (if leading then "" else code (negb (sem_ok (expect_repeat (snodes s)) (snodes s))) "d") ++
-      endpad_diag s false is_last
+      endpad_diag s
   | KM =>
       (if leading then code (negb (n =? 1)%Z) "m"
        else code (negb (n =? 2)%Z) "m" ++
             match first_leaf (snodes s) with
             | Some l => inner_leaf_diag l ++
-                        code (match lval l with Some q => qzero q | None => true end) "z"
+                        code (match lval l with Some _ => false | None => true end) "z"
             | None => "" end ++
-            match last_leaf (snodes s) with
-            | Some l => code (match lval l with Some _ => false | None => true end) "v"
-            | None => "" end ++
+            match first_leaf (snodes s), last_leaf (snodes s) with
+            | Some f, Some l =>
+                code (match lval f, lval l with
+                      | Some a, Some b => negb (negb (qzero a) || qzero b)
+                      | _, _ => true
+                      end) "v"
+            | _, _ => "" end ++
             code (Nat.eqb (sorig s) 0) "x") ++
-      endpad_diag s false is_last
+      endpad_diag s
   | KI | KL =>
       let extra := if leading then 1%Z else 2%Z in
       let c := (n - extra)%Z in
@@ -969,24 +1134,30 @@ Definition sc_diag (s : sc) (leading : bool) (is_last : bool) : string :=
       code (negb (cnt_txt_ok word)) "x" ++
       code (negb (all_ws pad && negb (String.eqb pad ""))) "x" ++
       match last_leaf (snodes s) with
-      | Some e => (if String.eqb (ltxt e) "" then "v" else code (negb (word_ok (ltxt e))) "x") ++
-                  endpad_diag s (ends_blank (ltxt e)) is_last
+      | Some e => (if String.eqb (ltxt e) "" then "v" else code (negb (word_ok (ltxt e))) "x")
       | None => ""
-      end ++
+      end ++ endpad_diag s ++
       (if leading then "" else code (negb (sem_ok (expect_interp (skind s) (snodes s)) (snodes s))) "l")
+  end.
+
+Definition node_diag_of (n : lnode) (prev : option lnode) (is_last : bool) : string :=
+  match n with
+  | NVal l => free_leaf_diag l is_last
+  | NSc s =>
+      match node_out n prev is_last with
+      | Err _ => "E"
+      | Ok ps =>
+          if expanded_mode s (lead_of n prev) then
+            code (negb (plain_ok ps false is_last)) "p" ++
+            code (negb (vlist_close (plain_vals ps) (map leaf_val (snodes s)))) "q"
+          else sc_diag s (match lead_of n prev with Some _ => true | None => false end)
+      end
   end.
 
 Fixpoint nodes_diag (nodes : list lnode) (prev : option lnode) : list string :=
   match nodes with
   | [] => []
-  | n :: r =>
-      let is_last := match r with [] => true | _ => false end in
-      (match n with
-       | NVal l => free_leaf_diag l is_last
-       | NSc s =>
-           let leading := match prev with Some (NSc _) => sshare s | _ => false end in
-           sc_diag s leading is_last
-       end) :: nodes_diag r (Some n)
+  | n :: r => node_diag_of n prev (match r with [] => true | _ => false end) :: nodes_diag r (Some n)
   end.
 
 Definition format_ok (l : listnode) : bool :=
@@ -1086,20 +1257,20 @@ Definition parse_optstr (s : string) : option string :=
 Definition parse_optZ (s : string) : option (option Z) :=
   if String.eqb s "-" then Some None else option_map Some (parse_Z s).
 
-(* shortcut: sid:kind:ids:share:origlen:otok:numtok:numog:endpad:midpad:begin:end:spacing:full:t1:t2:t3 *)
+(* shortcut: sid:kind:ids:share:origlen:otok:numtok:numog:endpad:midpad:begin:end:spacing:full:t1:t2:t3:logdesc:mulok *)
 Definition parse_sc (pool : list leaf) (s : string) : option sc :=
   match split_on ":"%char s with
-  | [i; k; ids; sh; ol; ot; nt; no; ep; mp; b; e; sp; fu; t1; t2; t3] =>
+  | [i; k; ids; sh; ol; ot; nt; no; ep; mp; b; e; sp; fu; t1; t2; t3; ld; mo] =>
       match parse_Z i, parse_kind k, parse_ids ids, parse_bool sh, parse_nat ol, parse_optZ no with
       | Some id, Some kd, Some nodeids, Some shb, Some oln, Some nog =>
-          match parse_Q b, parse_Q e, parse_Q sp, parse_bool fu with
-          | Some bq, Some eq, Some sq, Some fb =>
+          match parse_Q b, parse_Q e, parse_Q sp, parse_bool fu, parse_bool ld, parse_bool mo with
+          | Some bq, Some eq, Some sq, Some fb, Some ldb, Some mob =>
               Some (mkSc id kd (map (fun x => find_leaf x pool) nodeids) shb oln (parse_hex ot)
                          (parse_optstr nt) nog (parse_hex ep) (parse_hex mp) bq eq sq fb
                          (if String.eqb t1 "-" then "" else t1)
                          (if String.eqb t2 "-" then "" else t2)
-                         (if String.eqb t3 "-" then "" else t3))
-          | _, _, _, _ => None
+                         (if String.eqb t3 "-" then "" else t3) ldb mob)
+          | _, _, _, _, _, _ => None
           end
       | _, _, _, _, _, _ => None
       end
